@@ -1,6 +1,7 @@
 (* Proofs about the model Conf/Conf.v (C17). *)
 From Coq Require Import List NArith ZArith Bool Lia ZifyBool ZifyNat ZifyN.
 From TarsV Require Import Base.Hex Gen.Consts Conf.Conf Conf.ConfSpec.
+From TarsV Require Endpoint.Parse Endpoint.ParseProofs.
 Import ListNotations.
 Open Scope bool_scope.
 Open Scope N_scope.
@@ -595,10 +596,12 @@ Lemma name_char_facts b : is_name_char b = true ->
   (b =? c_colon) = false /\ (b =? c_gt) = false /\ (b =? c_slash) = false /\ is_xml_blank b = false /\ b < 128.
 Proof. chars. lia. Qed.
 Lemma name_start_facts b : is_name_start b = true ->
-  (b =? c_slash) = false /\ (b =? c_qm) = false /\ (b =? c_bang) = false /\ (b =? c_colon) = false /\ is_name_char b = true /\ b < 128.
+  (b =? c_slash) = false /\ (b =? c_qm) = false /\ (b =? c_bang) = false /\ (b =? c_colon) = false /\ is_name_char b = true /\ b < 128
+  /\ (128 <=? b) = false.
 Proof. chars. lia. Qed.
 Lemma blank_facts b : is_xml_blank b = true ->
-  is_name_char b = false /\ (b =? c_colon) = false /\ (b =? c_gt) = false /\ (b =? c_slash) = false /\ b < 128.
+  is_name_char b = false /\ (b =? c_colon) = false /\ (b =? c_gt) = false /\ (b =? c_slash) = false /\ b < 128
+  /\ (128 <=? b) = false.
 Proof. chars. lia. Qed.
 
 Notation B := Build_lstate.
@@ -626,7 +629,7 @@ Proof.
     assert (E4 : (c =? c_cr) = false) by (chars; lia).
     assert (E5 : (q =? c_cr) && (c =? c_nl) = false) by (chars; lia).
     rewrite E1, E2, E3, E4. cbn [b1]. rewrite E5, H5. reflexivity.
-  - intros (H1 & H2 & H3). exists 0.
+  - intros (H1 & H2 & H3 & H4). exists 0.
     cbn [fold_left]. rewrite fold_left_app.
     assert (E0 : lex_step (B MText t p q o Clean) c_amp = B (MEnt []) t p q o Clean).
     { unfold lex_step, text_step. cbn [mode b0 b1].
@@ -652,11 +655,26 @@ Proof.
     unfold text_chars. cbn [map rev]. rewrite <- app_assoc. reflexivity.
 Qed.
 
-Lemma lex_lt t p q o : lex_step (B MText t p q o Clean) c_lt = B MLt [] 0 0 (flushed t o) Clean.
+Definition ascii (s : bytes) : Prop := Forall (fun c => c < 128) s.
+Lemma utf8_valid_ascii s : ascii s -> utf8_valid s = true.
 Proof.
-  unfold lex_step, text_step. cbn [mode b0 b1]. replace (c_lt =? c_gt) with false by reflexivity.
+  unfold utf8_valid. induction 1 as [|c s Hc Hs IH]; [reflexivity|]. cbn [utf8_from utf8_step].
+  destruct (c <? 128) eqn:E; [exact IH|lia].
+Qed.
+Lemma ascii_rev s : ascii s -> ascii (rev s).
+Proof. intros H. apply Forall_forall. intros x Hx. apply in_rev in Hx. unfold ascii in H. rewrite Forall_forall in H. auto. Qed.
+
+Lemma flush_ascii t p q o : ascii t -> flush (B MText t p q o Clean) = B MText [] 0 0 (flushed t o) Clean.
+Proof.
+  intros H. unfold flush, flushed. cbn [mode txt b0 b1 out st]. rewrite utf8_valid_ascii by (rewrite frev_rev; apply ascii_rev; assumption).
+  destruct t; reflexivity.
+Qed.
+
+Lemma lex_lt t p q o : ascii t -> lex_step (B MText t p q o Clean) c_lt = B MLt [] 0 0 (flushed t o) Clean.
+Proof.
+  intros H. unfold lex_step, text_step. cbn [mode b0 b1]. replace (c_lt =? c_gt) with false by reflexivity.
   rewrite andb_false_r. replace (c_lt =? c_lt) with true by reflexivity.
-  unfold set_mode, flush, flushed. cbn [mode txt b0 b1 out st]. destruct t; reflexivity.
+  rewrite flush_ascii by assumption. reflexivity.
 Qed.
 
 Lemma lex_start_name_chars : forall r acc t p q o,
@@ -697,10 +715,10 @@ Lemma lex_start_tail name ws o : ws_ok ws ->
 Proof.
   intros HW. destruct ws as [|b ws].
   - cbn [app fold_left]. unfold lex_step. cbn [mode]. rewrite frev_rev, rev_involutive. split; reflexivity.
-  - inversion HW as [|? ? Hb HW']; subst. destruct (blank_facts _ Hb) as (F1 & F2 & F3 & F4 & _).
+  - inversion HW as [|? ? Hb HW']; subst. destruct (blank_facts _ Hb) as (F1 & F2 & F3 & F4 & _ & F6).
     cbn [app fold_left].
     assert (E : lex_step (B (MStartName (rev name)) [] 0 0 o Clean) b = B (MStartWs name) [] 0 0 o Clean).
-    { unfold lex_step. cbn [mode]. rewrite F1, F2, F3, F4, Hb, frev_rev, rev_involutive. reflexivity. }
+    { unfold lex_step. cbn [mode]. rewrite F1, F2, F6, F3, F4, Hb, frev_rev, rev_involutive. reflexivity. }
     rewrite E, !fold_left_app, lex_start_ws by assumption. split; reflexivity.
 Qed.
 
@@ -709,21 +727,21 @@ Lemma lex_end_tail name ws o : ws_ok ws ->
 Proof.
   intros HW. destruct ws as [|b ws].
   - cbn [app fold_left]. unfold lex_step. cbn [mode]. rewrite frev_rev, rev_involutive. reflexivity.
-  - inversion HW as [|? ? Hb HW']; subst. destruct (blank_facts _ Hb) as (F1 & F2 & F3 & F4 & _).
+  - inversion HW as [|? ? Hb HW']; subst. destruct (blank_facts _ Hb) as (F1 & F2 & F3 & F4 & _ & F6).
     cbn [app fold_left].
     assert (E : lex_step (B (MEndName (rev name)) [] 0 0 o Clean) b = B (MEndWs name) [] 0 0 o Clean).
-    { unfold lex_step. cbn [mode]. rewrite F1, F2, F3, Hb, frev_rev, rev_involutive. reflexivity. }
+    { unfold lex_step. cbn [mode]. rewrite F1, F2, F6, F3, Hb, frev_rev, rev_involutive. reflexivity. }
     rewrite E, fold_left_app, lex_end_ws by assumption. reflexivity.
 Qed.
 
-Lemma lex_piece_tag pc t p q o : piece_ok pc -> is_text pc = false ->
+Lemma lex_piece_tag pc t p q o : piece_ok pc -> is_text pc = false -> ascii t ->
   fold_left lex_step (piece_bytes pc) (B MText t p q o Clean) = B MText [] 0 0 (rev (piece_tokens pc) ++ flushed t o) Clean.
 Proof.
-  destruct pc as [l|n ws|n ws|n ws]; intros HP HT; try discriminate; destruct HP as [HN HW];
+  destruct pc as [l|n ws|n ws|n ws]; intros HP HT HA; try discriminate; destruct HP as [HN HW];
     destruct n as [|c r]; try contradiction; destruct HN as [Hc Hr];
-    destruct (name_start_facts _ Hc) as (G1 & G2 & G3 & G4 & G5 & _); cbn [piece_bytes piece_tokens rev app fold_left]; rewrite lex_lt.
+    destruct (name_start_facts _ Hc) as (G1 & G2 & G3 & G4 & G5 & _ & G7); cbn [piece_bytes piece_tokens rev app fold_left]; rewrite lex_lt by assumption.
   - assert (E : lex_step (B MLt [] 0 0 (flushed t o) Clean) c = B (MStartName [c]) [] 0 0 (flushed t o) Clean).
-    { unfold lex_step. cbn [mode]. rewrite G1, G2, G3, G4, Hc. reflexivity. }
+    { unfold lex_step. cbn [mode]. rewrite G1, G2, G3, G4, G7, Hc. reflexivity. }
     rewrite E, fold_left_app, lex_start_name_chars by assumption.
     replace (rev r ++ [c]) with (rev (c :: r)) by reflexivity. apply (lex_start_tail (c :: r) ws _ HW).
   - cbn [fold_left].
@@ -733,7 +751,7 @@ Proof.
     rewrite E0, E, fold_left_app, lex_end_name_chars by assumption.
     replace (rev r ++ [c]) with (rev (c :: r)) by reflexivity. apply (lex_end_tail (c :: r) ws _ HW).
   - assert (E : lex_step (B MLt [] 0 0 (flushed t o) Clean) c = B (MStartName [c]) [] 0 0 (flushed t o) Clean).
-    { unfold lex_step. cbn [mode]. rewrite G1, G2, G3, G4, Hc. reflexivity. }
+    { unfold lex_step. cbn [mode]. rewrite G1, G2, G3, G4, G7, Hc. reflexivity. }
     rewrite E, fold_left_app, lex_start_name_chars by assumption.
     replace (rev r ++ [c]) with (rev (c :: r)) by reflexivity. apply (lex_start_tail (c :: r) ws _ HW).
 Qed.
@@ -741,14 +759,20 @@ Qed.
 Lemma text_chars_nonnil l : l <> [] -> text_chars l <> [].
 Proof. destruct l; [contradiction|discriminate]. Qed.
 
+Lemma atoms_chars_ascii : forall l prev, atoms_ok prev l -> ascii (text_chars l).
+Proof.
+  induction l as [|a l IH]; intros prev H; [constructor|]. destruct H as [Ha Hl]. constructor; [|apply (IH _ Hl)].
+  destruct a as [c|raw c| |]; cbn in *; [tauto|tauto|reflexivity|reflexivity].
+Qed.
+
 Lemma lex_pieces : forall ps t p q o,
-  Forall piece_ok ps -> no_adjacent_text ps ->
+  Forall piece_ok ps -> no_adjacent_text ps -> ascii t ->
   (match ps with pc :: _ => is_text pc = true -> t = [] /\ q = 0 | [] => True end) ->
   exists t' p' q' o', fold_left lex_step (render ps) (B MText t p q o Clean) = B MText t' p' q' o' Clean
-     /\ rev (flushed t' o') = rev (flushed t o) ++ tokens_of ps.
+     /\ rev (flushed t' o') = rev (flushed t o) ++ tokens_of ps /\ ascii t'.
 Proof.
-  induction ps as [|pc ps IH]; intros t p q o HP HA HT.
-  - exists t, p, q, o. split; [reflexivity|]. cbn. rewrite app_nil_r. reflexivity.
+  induction ps as [|pc ps IH]; intros t p q o HP HA HAS HT.
+  - exists t, p, q, o. split; [reflexivity|]. split; [|assumption]. cbn. rewrite app_nil_r. reflexivity.
   - inversion HP as [|? ? Hpc HP']; subst.
     assert (HA' : no_adjacent_text ps) by (destruct ps; [exact I|apply HA]).
     unfold render, tokens_of in *. cbn [map concat]. rewrite fold_left_app.
@@ -756,16 +780,18 @@ Proof.
     + destruct pc as [l| | |]; try discriminate. destruct Hpc as [Hne Hok].
       destruct (HT eq_refl) as [-> ->].
       destruct (lex_atoms l [] p 0 o Hok) as (p1 & q1 & E1). cbn [piece_bytes]. rewrite E1.
-      destruct (IH (rev (text_chars l) ++ []) p1 q1 o HP' HA') as (t' & p' & q' & o' & E2 & E3).
+      destruct (IH (rev (text_chars l) ++ []) p1 q1 o HP' HA') as (t' & p' & q' & o' & E2 & E3 & E4).
+      { rewrite app_nil_r. apply ascii_rev. apply (atoms_chars_ascii l 0 Hok). }
       { destruct ps as [|pc2 ps]; [exact I|]. destruct HA as [HA _]. cbn in HA. intros H. rewrite H in HA. discriminate. }
-      exists t', p', q', o'. split; [exact E2|]. rewrite E3. cbn [piece_tokens app flushed rev].
+      exists t', p', q', o'. split; [exact E2|]. split; [|exact E4]. rewrite E3. cbn [piece_tokens app flushed rev].
       rewrite app_nil_r. destruct (rev (text_chars l)) as [|c r] eqn:ER.
       * exfalso. apply (text_chars_nonnil l Hne). apply (f_equal (@rev _)) in ER. rewrite rev_involutive in ER. exact ER.
       * cbn [flushed rev]. rewrite <- ER, frev_rev, rev_involutive, <- app_assoc. reflexivity.
-    + rewrite (lex_piece_tag pc t p q o Hpc T).
-      destruct (IH [] 0 0 (rev (piece_tokens pc) ++ flushed t o) HP' HA') as (t' & p' & q' & o' & E2 & E3).
+    + rewrite (lex_piece_tag pc t p q o Hpc T HAS).
+      destruct (IH [] 0 0 (rev (piece_tokens pc) ++ flushed t o) HP' HA') as (t' & p' & q' & o' & E2 & E3 & E4).
+      { constructor. }
       { destruct ps; [exact I|]. intros _. split; reflexivity. }
-      exists t', p', q', o'. split; [exact E2|]. rewrite E3. cbn [flushed].
+      exists t', p', q', o'. split; [exact E2|]. split; [|exact E4]. rewrite E3. cbn [flushed].
       rewrite rev_app_distr, rev_involutive, <- app_assoc. reflexivity.
 Qed.
 
@@ -809,12 +835,12 @@ Theorem lex_rendered ps : Forall piece_ok ps -> no_adjacent_text ps ->
   raw_tokens (render ps) = tokens_of ps /\ raw_status (render ps) = Clean.
 Proof.
   intros HP HA.
-  destruct (lex_pieces ps [] 0 0 [] HP HA) as (t' & p' & q' & o' & E & ET).
+  destruct (lex_pieces ps [] 0 0 [] HP HA) as (t' & p' & q' & o' & E & ET & EA).
+  { constructor. }
   { destruct ps; [exact I|]. intros _. split; reflexivity. }
-  unfold raw_tokens, raw_status, lex_run, lex_init. rewrite render_ascii by assumption. rewrite E.
-  unfold lex_finish. cbn [mode]. split.
-  - rewrite frev_rev. cbn in ET. rewrite <- ET. unfold flush, flushed. cbn [out txt]. destruct t'; reflexivity.
-  - reflexivity.
+  unfold raw_tokens, raw_status, lex_run, lex_init. rewrite E.
+  unfold lex_finish. cbn [mode]. rewrite flush_ascii by assumption. cbn [out st]. split; [|reflexivity].
+  rewrite frev_rev. cbn in ET. rewrite <- ET. reflexivity.
 Qed.
 
 (* ------------------------------------------------------------------------------------------- *)
@@ -1401,6 +1427,85 @@ Section GrammarProofs.
     apply (lines_exact t _ R _ _ (analysis_path_domain v HV) HL).
   Qed.
 End GrammarProofs.
+
+(* ------------------------------------------------------------------------------------------- *)
+(* typed getters: the decimal rendering of an integer in range parses to that integer (fmt %d / strconv.Itoa form) *)
+Lemma dec_z_value : forall s acc, dec_z acc s = Endpoint.Parse.dec_value acc s.
+Proof.
+  induction s as [|c r IH]; intros acc; cbn [dec_z Endpoint.Parse.dec_value]; [reflexivity|].
+  unfold Endpoint.Parse.digit_of, is_digit, in_range. destruct (N.leb 48 c && N.leb c 57) eqn:E; [|reflexivity].
+  rewrite IH. f_equal. lia.
+Qed.
+
+Lemma parse_int_digit_head lo hi c r : 48 <= c <= 57 ->
+  parse_int lo hi (c :: r) = match dec_z 0 (c :: r) with
+                             | None => None
+                             | Some v => if ((lo <=? v) && (v <=? hi))%Z then Some v else None
+                             end.
+Proof.
+  intros Hc. unfold parse_int. destruct c as [|cp]; [lia|]. do 7 (try destruct cp as [cp|cp|]); try lia; reflexivity.
+Qed.
+
+Lemma parse_int_minus lo hi c r :
+  parse_int lo hi (45 :: c :: r) = match dec_z 0 (c :: r) with
+                                   | None => None
+                                   | Some v => if ((lo <=? - v) && (- v <=? hi))%Z then Some (- v)%Z else None
+                                   end.
+Proof. reflexivity. Qed.
+
+Theorem parse_int_dec lo hi z : (lo <= z <= hi)%Z -> parse_int lo hi (Endpoint.Parse.dec z) = Some z.
+Proof.
+  intros Hr. pose proof (DecimalZ.of_to z) as Hz. unfold Endpoint.Parse.dec.
+  destruct z as [|p|p]; cbn [Z.to_int] in *.
+  - cbn. destruct ((lo <=? 0)%Z && (0 <=? hi)%Z) eqn:E; [reflexivity|lia].
+  - unfold Z.of_int, Z.of_uint in Hz.
+    pose proof (DecimalPos.Unsigned.to_uint_nonnil p) as Hn.
+    pose proof (Endpoint.ParseProofs.uint_bytes_digits (Pos.to_uint p)) as Hd.
+    pose proof (Endpoint.ParseProofs.dec_value_uint (Pos.to_uint p)) as Hv. rewrite Hz in Hv.
+    destruct (Endpoint.Parse.uint_bytes (Pos.to_uint p)) as [|c r] eqn:E.
+    + exfalso. apply (Endpoint.ParseProofs.uint_bytes_nonnil _ Hn E).
+    + inversion Hd as [|? ? Hc _]; subst.
+      rewrite parse_int_digit_head by assumption. rewrite dec_z_value, Hv.
+      destruct ((lo <=? Z.pos p)%Z && (Z.pos p <=? hi)%Z) eqn:E2; [reflexivity|lia].
+  - unfold Z.of_int, Z.of_uint in Hz.
+    pose proof (DecimalPos.Unsigned.to_uint_nonnil p) as Hn.
+    pose proof (Endpoint.ParseProofs.dec_value_uint (Pos.to_uint p)) as Hv.
+    assert (Hp : Z.of_N (Pos.of_uint (Pos.to_uint p)) = Z.pos p) by lia. rewrite Hp in Hv.
+    destruct (Endpoint.Parse.uint_bytes (Pos.to_uint p)) as [|c r] eqn:E.
+    + exfalso. apply (Endpoint.ParseProofs.uint_bytes_nonnil _ Hn E).
+    + rewrite parse_int_minus, dec_z_value, Hv. destruct ((lo <=? - Z.pos p)%Z && (- Z.pos p <=? hi)%Z) eqn:E2; [reflexivity|lia].
+Qed.
+
+Lemma parse_int_factor s : exists o, forall lo hi,
+  parse_int lo hi s = match o with Some v => if ((lo <=? v) && (v <=? hi))%Z then Some v else None | None => None end.
+Proof.
+  unfold parse_int. match goal with |- context [let '(a, b) := ?M in _] => destruct M as [neg body] end.
+  destruct body as [|n body]; [exists None; reflexivity|].
+  destruct (dec_z 0 (n :: body)) as [w|]; [|exists None; reflexivity].
+  exists (Some (if neg then (- w)%Z else w)). reflexivity.
+Qed.
+
+Theorem parse_int_out_of_range lo hi z : ~ (lo <= z <= hi)%Z -> parse_int lo hi (Endpoint.Parse.dec z) = None.
+Proof.
+  intros Hr. destruct (parse_int_factor (Endpoint.Parse.dec z)) as [o Ho].
+  pose proof (parse_int_dec (Z.min lo z) (Z.max hi z) z ltac:(lia)) as H. rewrite Ho in H. rewrite Ho.
+  destruct o as [v|]; [|reflexivity].
+  destruct ((Z.min lo z <=? v)%Z && (v <=? Z.max hi z)%Z); [|discriminate]. inversion H; subst.
+  destruct ((lo <=? z)%Z && (z <=? hi)%Z) eqn:E; [lia|reflexivity].
+Qed.
+
+Theorem int_parsed : forall z,
+  ((-9223372036854775808 <= z <= 9223372036854775807)%Z -> atoi (Endpoint.Parse.dec z) = Some z) /\
+  ((-2147483648 <= z <= 2147483647)%Z -> atoi32 (Endpoint.Parse.dec z) = Some z) /\
+  (~ (-2147483648 <= z <= 2147483647)%Z -> atoi32 (Endpoint.Parse.dec z) = None) /\
+  (~ (-9223372036854775808 <= z <= 9223372036854775807)%Z -> atoi (Endpoint.Parse.dec z) = None).
+Proof.
+  intros z. repeat split; intros H; first [apply parse_int_dec; exact H | apply parse_int_out_of_range; exact H].
+Qed.
+
+Theorem grammar_lines_read : forall ls b, Forall gline_ok ls ->
+  content_lines (gtext ls b) = flat_map gline_text ls /\ map line_kv (flat_map gline_text ls) = flat_map gline_kv ls.
+Proof. intros ls b H. split; [apply gtext_read; exact H | apply (glines_read ls H)]. Qed.
 
 (* ------------------------------------------------------------------------------------------- *)
 (* a concrete document satisfying every hypothesis of the theorems above, and the theorems applied to it *)
